@@ -16,6 +16,7 @@ RULE = (
     "(node, arguments)), error identity, sync-partial subset-of async-partial; same-step isolation decided from the step "
     "trace and the producing invocation named by each argument term. Non-trivial: >= 2 async bodies were parked "
     "simultaneously at some quiescent point or >= 3 executions compared; distinct = canonical program shape."
+    ' Also: two or three sibling nested graphs running in the same step, some built with with_entrypoint and holding a satisfiable node outside the entry scope.'
 )
 ASSUMPTIONS = [
     "quiescence is detected exactly from the event loop's ready queue (single loop, no timers, no I/O)",
